@@ -126,7 +126,15 @@ status_t StringMatcher :: SetPattern(const String & s, bool isSimple)
             {
                char c = *ptr;
 
-               if (escapeMode) escapeMode = false;
+               if (escapeMode)
+               {
+                  escapeMode = false;
+
+                  // The user wants (c) to be matched literally.  A backslash followed by a letter, digit, backtick, quote or angle-bracket
+                  // is an operator in some regex implementations (e.g. \w \s \b \< \` \1 in GNU regex) rather than an escaped literal,
+                  // and none of those chars is special on its own, so in that case remove the backslash we appended on the previous iteration.
+                  if ((muscleInRange(c, '0', '9'))||(muscleInRange(c, 'a', 'z'))||(muscleInRange(c, 'A', 'Z'))||(c == '`')||(c == '\'')||(c == '<')||(c == '>')) regexPattern.TruncateChars(1);
+               }
                else
                {
                   switch(c)
